@@ -249,7 +249,7 @@ func writeEvidence(res *result, path string) {
 		"trusted_base":             []string{"go/packages + go/types + go/ssa (x/tools v0.29.0)", "govc VC generator (/verif/govc)", "z3 4.8.12, z3 5.1.0, cvc5 1.0 (first definitive answer wins)"},
 		"functions_under_contract": res.Functions,
 		"obligation_list":          res.PerObl,
-		"failed":                   res.Failed,
+		"failed":                   failedOrEmpty(res.Failed),
 		"known_findings_hit":       res.KnownHits,
 		"samples":                  res.Samples,
 	}
@@ -267,4 +267,11 @@ func writeEvidence(res *result, path string) {
 	os.MkdirAll(filepath.Dir(path), 0o755)
 	b, _ := json.MarshalIndent(ev, "", " ")
 	os.WriteFile(path, b, 0o644)
+}
+
+func failedOrEmpty(f []failure) []failure {
+	if f == nil {
+		return []failure{}
+	}
+	return f
 }
